@@ -598,8 +598,10 @@ def check(prop, tier, verif_seed, n=None, workers=None, out=sys.stdout):
         exit_code = max(exit_code, 1)
     for i, text in agg.harness[:5]:
         print('HARNESS-ERROR seed_index=%d\n%s' % (i, text), file=out)
-    if agg.harness:
-        exit_code = max(exit_code, 2)
+    if agg.harness and exit_code != 1:
+        # confirmed violations stand on their own replay files; harness
+        # errors elsewhere in the batch are reported but do not mask them
+        exit_code = 2
     notes = list(unreproducible)
     if agg.evaluations and \
             sum(agg.skipped.values()) > 0.5 * agg.evaluations:
